@@ -56,6 +56,10 @@ func VerifC17() {
 func c17Compare(rows1, rows2 []string, tag string) {
 	mode := verifChoose("mode", 0, 2)
 	w1, w2 := newVerifWriter(), newVerifWriter()
+	if verifFlag("refusingWriter") {
+		// the output stream refuses its first write (the two variants buffer differently; both must report it)
+		w1.failAt, w2.failAt = 0, 0
+	}
 	var err1, err2 error
 	verifContext("C17.output")
 	switch mode {
@@ -227,4 +231,68 @@ func VerifC17Units() {
 		verifAssert(w1.out == w2.out, "C17.out.units/text")
 	}
 	verifReach("C17.units.end")
+}
+
+func init() {
+	verifRegister("VerifC17Lines", VerifC17Lines)
+}
+
+// VerifC17Lines: line ends in the tinywasm variant, with its REAL line splitting (job flags realscan, realparse): a
+// forest of n rows (every well-formed depth sequence, concrete names) is written canonically (LF after every row) for
+// the default build and with a solver-chosen terminator per row (LF or CRLF), with or without the terminator of the
+// last row and optionally an empty LF / CRLF line appended, for the tinywasm build: text, JSON and dry-run output
+// are byte-identical and both calls succeed.
+func VerifC17Lines() {
+	n := verifN()
+	var rows []string
+	prev := uint(0)
+	for i := 0; i < n; i++ {
+		var d uint
+		if i > 0 {
+			d = verifChoose("depth", 0, prev+1)
+		}
+		prev = d
+		rows = append(rows, strings.Repeat("  ", int(d))+"- n"+string(rune('0'+i)))
+	}
+	docA, docB := "", ""
+	for i, r := range rows {
+		docA += r + "\n"
+		docB += r
+		if i == len(rows)-1 && verifFlag("nofinal") {
+			continue
+		}
+		if verifFlag("crlf") {
+			docB += "\r\n"
+		} else {
+			docB += "\n"
+		}
+	}
+	switch verifChoose("tail", 0, 2) {
+	case 1:
+		docB += "\n"
+	case 2:
+		docB += "\r\n"
+	}
+	verifObserve("docB", docB)
+	verifContext("C17.lines")
+	for k := 0; k < 3; k++ {
+		cls := []string{"/text", "/json", "/dryrun"}[k]
+		w1, w2 := newVerifWriter(), newVerifWriter()
+		var e1, e2 error
+		switch k {
+		case 0:
+			e1 = Output(w1, strings.NewReader(docA))
+			e2 = wasm.Output(w2, strings.NewReader(docB))
+		case 1:
+			e1 = Output(w1, strings.NewReader(docA), WithEncodeJSON())
+			e2 = wasm.Output(w2, strings.NewReader(docB), wasm.WithEncodeJSON())
+		case 2:
+			color.Output = w1
+			e1 = Output(w1, strings.NewReader(docA), WithDryRun())
+			e2 = wasm.Output(w2, strings.NewReader(docB), wasm.WithDryRun())
+		}
+		verifAssert(e1 == nil && e2 == nil, "C17.lines.nil"+cls)
+		verifAssert(w1.out == w2.out, "C17.lines.same"+cls)
+	}
+	verifReach("C17.lines.end")
 }
